@@ -53,6 +53,23 @@ Theorem C18_transform_rules : forall fmt native d,
 Proof. exact transform_rules. Qed.
 Print Assumptions C18_transform_rules.
 
+(* "a DBI that cannot be created safely": in shadow mode a snapshot older than format 3 does not state the flags
+   of the application DBI; a DBI missing locally is then created only with an explicit override_create_flags
+   for THAT DBI, otherwise the load fails as a whole; and the options of one DBI never influence another *)
+Theorem C18_create_needs_v3_or_override : forall c fmt compat T cutoff d st,
+  i_native c = false -> has_prefix sync_prefix (sd_name d) = false ->
+  validate_transform fmt false d = Ok tt ->
+  find_dbi (fst st) (sd_name d) = None ->
+  override_of (i_override c) (sd_name d) = None -> fmt < 3 ->
+  load_one c fmt compat T cutoff d st = Err ERefused.
+Proof. exact load_one_refuses_old_format. Qed.
+Theorem C18_override_is_per_dbi : forall c c' fmt compat T cutoff d st,
+  i_native c' = i_native c -> i_padding c' = i_padding c -> i_cancelled c' = i_cancelled c ->
+  override_of (i_override c') (sd_name d) = override_of (i_override c) (sd_name d) ->
+  load_one c' fmt compat T cutoff d st = load_one c fmt compat T cutoff d st.
+Proof. exact load_one_override_local. Qed.
+Print Assumptions C18_override_is_per_dbi.
+
 (* private bookkeeping DBIs found in a snapshot are ignored *)
 Theorem C18_private_skipped : forall c fmt compat T cutoff d st,
   has_prefix sync_prefix (sd_name d) = true -> load_one c fmt compat T cutoff d st = Ok st.
@@ -68,6 +85,6 @@ Print Assumptions C18_v2_flags.
 
 (* non-vacuity: a two-DBI snapshot whose second DBI declares an unknown transform fails as a whole *)
 Example C18_example :
-  load_txn (mkICfg true true false false false) (mkEnv [] 4)
+  load_txn (mkICfg true true false false false []) (mkEnv [] 4)
     (mkSnap 3 1 [mkSDbi [97] 0 [] [mkKV [107] [118] 5 0]; mkSDbi [98] 0 [120] []]) 4 1000 0 = Err ERefused.
 Proof. vm_compute. reflexivity. Qed.
